@@ -680,7 +680,7 @@ func confCaseRun(c *confCase, res *result) {
 	if accepted {
 		m = "acc"
 	}
-	if m != c.M {
+	if m != c.M && res.OK { // (a Layer-P contradiction is reported as such, not as drift)
 		res.Drift = append(res.Drift, fmt.Sprintf("action=load kind=%s shape=%s loaders say %s, mechanism model says %s (%v)", c.K, sig, m, c.M, loadErr))
 	}
 }
